@@ -29,8 +29,10 @@ def main(argv=None) -> int:
     ap.add_argument("--n", type=int, default=300)
     ap.add_argument("--focus", default=None)
     ap.add_argument("--budget-s", type=float, default=None, dest="budget_s")
+    ap.add_argument("--clauses", action="store_true", help="print the clause readings of the property and exit")
     try:
-        ns = ap.parse_args(argv)
+        ns, _unknown = ap.parse_known_args(argv)      # options of props/run.py that do not apply here are ignored
+        ns.property = ns.property.upper()
     except SystemExit:
         print(json.dumps({"property": argv[0] if argv else None, "evaluations": 0, "distinct": 0, "violations": [],
                           "violation_counts": {}, "bound": "none: bad command line", "exhaustive": False, "seed": None,
@@ -42,6 +44,8 @@ def main(argv=None) -> int:
             out = {"property": ns.property, "evaluations": 0, "distinct": 0, "violations": [], "violation_counts": {},
                    "bound": f"none: {ns.property} is not served by run_b.py (serves {cb.PROPERTIES})", "exhaustive": False,
                    "seed": ns.seed, "error": "unknown property"}
+        elif ns.clauses:
+            out = {"property": ns.property, "clauses": cb.CLAUSE_READINGS.get(ns.property, {})}
         else:
             budget = ns.budget_s if ns.budget_s is not None else (50.0 if ns.n <= 1000 else 300.0)
             out = cb.run_property(ns.property, ns.seed, ns.n, ns.focus, budget)
